@@ -29,11 +29,30 @@ REPO_SRC = os.path.join(REPO, "src")
 NPROC = int(os.environ.get("VF_NPROC", "16"))
 
 
+def _cap_sleep() -> None:
+    """Retry back-off and lock polling sleep in REAL time (Transaction.commit: up to 50 retries x <=3 s). No property here
+    depends on how long a sleep lasts, but a change that makes every commit retry would turn a check into hours of
+    sleeping: inside check processes a sleep lasts at most 2 ms (child processes of the stress tests are not affected)."""
+    import time as _t
+
+    if getattr(_t, "_vf_capped", False):
+        return
+    real = _t.sleep
+
+    def capped(seconds):
+        real(min(max(float(seconds), 0.0), 0.002))
+
+    _t.sleep = capped
+    _t._vf_capped = True
+    _t._vf_real_sleep = real
+
+
 def setup_repo_import() -> None:
     """Make `import datashard` resolve to the CURRENT working tree of /repo."""
     if REPO_SRC in sys.path:
         sys.path.remove(REPO_SRC)
     sys.path.insert(0, REPO_SRC)
+    _cap_sleep()
     import datashard  # noqa
 
     f = os.path.realpath(datashard.__file__)
@@ -88,6 +107,10 @@ def jsonable(o):
         return {"$t": o.isoformat()}
     if isinstance(o, (str, int, bool)) or o is None:
         return o
+    import decimal
+
+    if isinstance(o, decimal.Decimal):
+        return {"$dec": str(o)}
     return repr(o)
 
 
@@ -101,6 +124,10 @@ def unjson(o):
                 return float(v)
             if k == "$b":
                 return bytes.fromhex(v)
+            if k == "$dec":
+                import decimal
+
+                return decimal.Decimal(v)
             if k == "$ts":
                 return _dt.datetime.fromisoformat(v)
             if k == "$d":
